@@ -5,6 +5,7 @@ import GqlVerif.Proofs.C01RecursiveE
 import GqlVerif.Proofs.C01RecursiveV
 import GqlVerif.Proofs.C01Rust
 import GqlVerif.Proofs.C01VariantSpread
+import GqlVerif.Proofs.C01VariantSpreadE
 open GqlVerif.C01
 #print axioms accepts_mono
 #print axioms conforming_int_accepted
@@ -88,3 +89,13 @@ open GqlVerif.C01
 #print axioms GqlVerif.C01.E2E.ws_items_shape
 #print axioms GqlVerif.C01.E2E.ws_roundtripH
 #print axioms GqlVerif.C01.E2E.bs_items_shape
+-- lossless for the whole class VariantSpreadOp, (a) and (b) spreads (Proofs/C01VariantSpreadD.lean, E.lean)
+#print axioms GqlVerif.C01.E2E.variantspread_lossless
+#print axioms GqlVerif.C01.E2E.variantspread_roundtrip
+#print axioms GqlVerif.C01.E2E.variantspread_roundtrip_noB
+#print axioms GqlVerif.C01.E2E.canonSelD_noB
+#print axioms GqlVerif.C01.E2E.deStruct_borrow_finds
+#print axioms GqlVerif.C01.E2E.rtAbsV_w
+#print axioms GqlVerif.C01.E2E.rtAbsD
+#print axioms GqlVerif.C01.E2E.bs_roundtripH
+#print axioms GqlVerif.C01.E2E.variantspread_b_rust_names_needed
